@@ -20,13 +20,30 @@ PID = "C06"
 ESC = "\\`\"'\nanx0λ"
 
 
+# where the quoted literal stands: alone, and inside each kind of block (indented code, list items, functions)
+CONTEXTS = ["□", "λ□;†", "1(□)", "1[□]", "⟨□⟩", "1(1[λ⟨□⟩;†])", "@f|□;@f;", "0[1|□]"]
+
+
+def leaves(v, acc):
+    from vyxal.LazyList import LazyList
+
+    if isinstance(v, (list, LazyList)):
+        for x in v:
+            leaves(x, acc)
+    else:
+        acc.append(v)
+    return acc
+
+
 def observe(case):
-    s, dc = case
+    s, dc = case[:2]
+    ctxi = case[2] if len(case) > 2 else 0
     from vyxal.context import Context
     from vyxal.elements import quotify
 
     try:
-        q = quotify(s, Context())
+        q0 = quotify(s, Context())
+        q = CONTEXTS[ctxi].replace("□", q0)
     except Exception as e:  # noqa: BLE001
         return {"s": cps(s), "q": [], "vals": [], "err": "quotify:" + type(e).__name__}
     try:
@@ -40,11 +57,11 @@ def observe(case):
                     pass
             stack, ctx, err = common.with_alarm(lambda _: runner.exec_text(q, dict_compress=dc), None, 5)
     except common.CaseTimeout:
-        return {"s": cps(s), "q": cps(q), "vals": [], "err": "hang"}
+        return {"s": cps(s), "q": cps(q0), "vals": [], "err": "hang"}
     except BaseException as e:  # noqa: BLE001
-        return {"s": cps(s), "q": cps(q), "vals": [], "err": type(e).__name__}
-    vals = [cps(v) if isinstance(v, str) else [-1] for v in (stack or [])]
-    return {"s": cps(s), "q": cps(q), "vals": vals, "err": (err or "").split(":")[1] if ":" in (err or "") else (err or "")}
+        return {"s": cps(s), "q": cps(q0), "vals": [], "err": type(e).__name__}
+    vals = [cps(v) if isinstance(v, str) else [-1] for v in (leaves(stack or [], []) if ctxi else (stack or []))]
+    return {"s": cps(s), "q": cps(q0), "vals": vals, "err": (err or "").split(":")[1] if ":" in (err or "") else (err or "")}
 
 
 def main(tier):
@@ -74,6 +91,16 @@ def main(tier):
         for tup in itertools.product("\\`\"a n", repeat=L):
             cs.append(("".join(tup), True))
     cs = list(dict.fromkeys(cs))
+    # the same strings with the quoted literal inside a block (every string in one of the contexts, round robin;
+    # strings with a newline or a non-ASCII character in every context)
+    inner = []
+    for i, (sv, dc) in enumerate(cs):
+        if "\n" in sv or any(ord(c) > 126 for c in sv):
+            if len(sv) <= 3 or i % 4 == 0:
+                inner += [(sv, dc, k) for k in range(1, len(CONTEXTS))]
+                continue
+        inner.append((sv, dc, 1 + i % (len(CONTEXTS) - 1)))
+    cs += inner
     with common.Scratch(PID) as s:
         mc = tlc.model_check(s, "MC_Quote", cfg="MC_Quote", workers=16)
         if not mc["ok"]:
@@ -82,11 +109,11 @@ def main(tier):
                               on_timeout=lambda c: {"s": cps(c[0]), "q": [], "vals": [], "err": "hang"})
         verdicts, st = tlc.validate(s, "Trace_Quote", obs, cfg="Trace_Quote.cfg", chunk=5000)
     tally = {}
-    for (sv, dc), v, o in zip(cs, verdicts, obs):
+    for (sv, dc, *cx), v, o in zip(cs, verdicts, obs):
         tally[v] = tally.get(v, 0) + 1
         if v.startswith("violation"):
-            V.add(f"{v.split(':', 1)[1]}:{sv!r}:compression={'on' if dc else 'off'}",
-                  {"string": sv, "dictionary_compression": dc, "quoted": common.uncps(o["q"]),
+            V.add(f"{v.split(':', 1)[1]}:{sv!r}:compression={'on' if dc else 'off'}" + (f":in:{CONTEXTS[cx[0]]}" if cx else ""),
+                  {"string": sv, "dictionary_compression": dc, "quoted": common.uncps(o["q"]), "context": CONTEXTS[cx[0]] if cx else "□",
                    "pushed": [common.uncps(x) if x != [-1] else "<non-string>" for x in o["vals"]], "err": o["err"]})
         elif v.startswith("drift"):
             V.add_drift({"string": sv, "verdict": v})
@@ -96,7 +123,7 @@ def main(tier):
         {
             "states": mc["distinct"], "transitions": mc["generated"], "traces_validated_against_impl": len(cs),
             "samples": [{"string": sv, "compression": dc, "verdict": v}
-                        for (sv, dc), v in list(zip(cs, verdicts))[:: max(1, len(cs) // 12)][:12]],
+                        for (sv, dc, *_), v in list(zip(cs, verdicts))[:: max(1, len(cs) // 12)][:12]],
             "evaluations": len(cs), "distinct_nontrivial": len(cs),
             "rule": f"every string <= {n} over the 10 escape-relevant characters; every code-page character in 7 "
                     "neighbourhoods; random strings <= 40 over the code page (compression off) and over printable ASCII "
